@@ -201,6 +201,10 @@ class World:
         self._idle_polls = 0
         self.spinning = False
         kw = dict(adj_kw or {})
+        if listeners > 1 and not any(k in kw for k in ("listen", "host", "port", "sockets", "unix_socket")):
+            # as create_server does: every listening server gets the same adjustments, whose `listen`
+            # names all the addresses
+            kw["listen"] = " ".join("127.0.0.1:%d" % (8080 + i) for i in range(listeners))
         with warnings.catch_warnings():
             warnings.simplefilter("ignore")
             self.adj = Adjustments(**kw)
